@@ -258,6 +258,13 @@ pub struct FnInfo {
     pub ret: Ty,
     /// the body contains a loop (or calls a function that does): leading `fuel : nat` parameter, result in `option`
     pub fuel: bool,
+    /// the body can panic (`panic!`, `assert!`, `unwrap`, slice index, a call of such a function): result in `option`, None = panic
+    /// (no fuel parameter; for a fuelled function None means fuel exhausted or a panic)
+    pub partial: bool,
+    /// the definition is parametric in the width of usize (implicit `{U__ : Casts.UsizeW}`)
+    pub usize_w: bool,
+    /// the panic sites of the translated body (a fuelled function with panic sites: None = fuel exhausted OR a panic)
+    pub panic_sites: Vec<String>,
 }
 
 /// the marker type of a `PhantomData<..>` field
@@ -266,6 +273,10 @@ pub fn is_phantom(t: &Ty) -> bool {
 }
 
 impl FnInfo {
+    /// the generated definition returns an `option`
+    pub fn opt(&self) -> bool {
+        self.fuel || self.partial
+    }
     pub fn has_mut_params(&self) -> bool {
         self.mut_params.iter().any(|b| *b)
     }
@@ -487,6 +498,28 @@ impl Tables {
         }
         if self.adts.contains_key(name) {
             return Some(Ty::Adt(name.to_string()));
+        }
+        if !name.contains('.') {
+            // a configured type DEFINED in the current file (under a module-qualified key) comes before a global abstract type
+            // (`mtype` / `extern`) of the same name
+            let sfx = format!(".{}", name);
+            let here: Vec<&String> = self
+                .adts
+                .iter()
+                .filter(|(k, a)| {
+                    k.ends_with(&sfx) && {
+                        let origin = match a {
+                            Adt::Struct(s) => s.origin.clone(),
+                            Adt::Enum(e) => e.origin.clone(),
+                        };
+                        origin.split(':').next().unwrap() == cur_file
+                    }
+                })
+                .map(|(k, _)| k)
+                .collect();
+            if here.len() == 1 && self.externs.contains_key(name) {
+                return Some(Ty::Adt(here[0].clone()));
+            }
         }
         if self.externs.contains_key(name) {
             return Some(Ty::Extern(name.to_string()));
